@@ -67,6 +67,14 @@ CHECKS.update({
    ref="DESIGN.md §4 C02"),
 })
 
+CHECKS.update({
+ "C20": dict(
+   technique="property-based testing (proptest): byte round trip of encoder-produced class files, value round trip of directly generated raw values, independent JVMS layout walker over the written bytes, differential cross-reading by the strict decoder and duke",
+   text="Generated-input exploration: well-formed class files from the harness encoder (all encodings, every attribute kind the crate models) must satisfy write(read(b)) == b and length() == |b|; raw ClassFile values generated directly must satisfy |to_bytes()| == length(), read(write(v)) == v, and their written bytes must be consumed exactly by an independent layout walker using JVMS count widths and attribute_length; re-written files are cross-read by the strict decoder and duke. Holds on everything explored apart from the listed known finding (pools with long/double).",
+   note="Trusted: harness encoder/decoder and the layout walker. While finding C20-long-double-pool-slots is open, cases whose pool holds a Long/Double are counted and excluded (3/4 of the cases are generated without them).",
+   ref="DESIGN.md §4 C20"),
+})
+
 NOT_YET = {
 }
 
